@@ -318,7 +318,20 @@ func c17CancelledWrite(c *vf.Case) {
 		}
 		// the transport is writable again; whatever the stream still wants to send goes out, then one more write
 		t.ReleaseWrites()
-		t.Pump()
+		for i := 0; i < 50 && (t.Pump() > 0 || t.HeldWrites() > 0); i++ {
+			t.ReleaseWrites()
+		}
+		// transport writable, nothing in flight, no new operation yet: every write submitted so far has completed
+		for _, x := range subs {
+			if x.calls != 1 {
+				key := "callback-dropped"
+				if x.calls > 1 {
+					key = "callback-invoked-twice"
+				}
+				c.Failf(key+"/AsyncWrite/around-a-cancelled-write", "%s: callback invoked %d times (err=%v) once the transport was writable again and idle, before any further operation", x.what, x.calls, x.err)
+				return
+			}
+		}
 		last := write(fmt.Sprintf("round %d: write after the cancellation", round))
 		s.AsyncFlush(func(error) {})
 		for i := 0; i < 50 && (t.Pump() > 0 || t.HeldWrites() > 0); i++ {
